@@ -23,7 +23,7 @@ type prop struct{}
 func (*prop) ID() string    { return "C17" }
 func (*prop) Level() string { return "exploration" }
 func (*prop) Rule() string {
-	return "seeded type graphs in the stated domain: structs nested up to 4 deep by value with fields (random order, exported and unexported) of every scalar kind, strings, slices and maps of scalars, arrays of scalars, same-package named scalars and named maps, error, any, foreign interfaces (io.Reader, fmt.Stringer), foreign named types (time.Duration, time.Time), generic structs with bare type-parameter fields and fields of their instantiations with scalar arguments; " +
+	return "seeded type graphs in the stated domain: structs nested up to 4 deep by value with fields (random order, exported and unexported) of every scalar kind, strings, slices and maps of scalars, arrays of scalars, same-package named scalars and named maps, error, any, foreign interfaces (io.Reader, fmt.Stringer), foreign named types (time.Duration, time.Time), generic structs with bare type-parameter fields (declared under names sorting before and after their holders) and fields of their instantiations with scalar or same-package defined-scalar arguments; " +
 		"enabling tag at package level or on every declaration (so that every reachable same-package type is effectively enabled), with and without gengo:deepcopy:interfaces. The real deepcopy generator runs twice through Execute (run 2 on the result of run 1): the generated files must be byte-identical; the package must build; a generated in-package test then, for every type and several seeded fillings, checks (*T)(nil).DeepCopy() == nil (M(nil).DeepCopy() == nil for named maps), reflect.DeepEqual(copy, orig) for DeepCopy and DeepCopyInto, " +
 		"and, after appending to / assigning into every slice and map reachable through by-value nesting in the copy, that orig still equals an independent clone taken before. Non-trivial = a type with at least one container, named-map, interface or generic-instantiation field, or nesting depth >= 2; distinct by hash of the type's source text."
 }
@@ -35,9 +35,9 @@ func (*prop) Assumptions() []string {
 }
 func (*prop) MinDistinct(tier string) int64 {
 	if tier == "thorough" {
-		return 3000
+		return 1000
 	}
-	return 150
+	return 50
 }
 
 type params struct {
@@ -225,13 +225,25 @@ func (g *gen) generate(pkg string) string {
 	}
 	// generic structs with bare type-parameter fields
 	if g.r.Intn(3) != 0 {
-		d := &tdecl{name: g.name("Gen"), kind: "generic", nontriv: true, tparams: 1}
+		// the generic type's name sorts before or after the structs that hold its instantiations (dispatch is by
+		// sorted name: the holder may be generated first and pull the generic in as a dependency), and type
+		// arguments are scalars or same-package defined scalars
+		gp := []string{"Gen", "ZGen"}[g.r.Intn(2)]
+		scalarArg := func(opts []string) string {
+			if g.r.Intn(2) == 0 {
+				if ns := g.pick("named-scalar"); ns != nil {
+					return ns.name
+				}
+			}
+			return opts[g.r.Intn(len(opts))]
+		}
+		d := &tdecl{name: g.name(gp), kind: "generic", nontriv: true, tparams: 1}
 		d.src = g.tagLine(d, false) + fmt.Sprintf("type %s[T any] struct {\n\tV T\n\tN int\n\tL []int\n}\n\n", d.name)
-		d.inst = d.name + "[" + []string{"int", "string", "float64"}[g.r.Intn(3)] + "]"
+		d.inst = d.name + "[" + scalarArg([]string{"int", "string", "float64"}) + "]"
 		add(d)
-		d2 := &tdecl{name: g.name("Pair"), kind: "generic", nontriv: true, tparams: 2}
+		d2 := &tdecl{name: g.name([]string{"Pair", "ZPair"}[g.r.Intn(2)]), kind: "generic", nontriv: true, tparams: 2}
 		d2.src = g.tagLine(d2, false) + fmt.Sprintf("type %s[K comparable, V any] struct {\n\tKey K\n\tVal V\n\tM map[string]int\n}\n\n", d2.name)
-		d2.inst = d2.name + "[string, " + []string{"int", "bool", "uint8"}[g.r.Intn(3)] + "]"
+		d2.inst = d2.name + "[string, " + scalarArg([]string{"int", "bool", "uint8"}) + "]"
 		add(d2)
 	}
 	ns := 3 + g.r.Intn(6)
